@@ -93,18 +93,32 @@ impl TTLTicker {
         let receiver = tick(tick_duration);
 
         thread::spawn(move || {
+            #[cfg(feature = "verif")]
+            let _verif_thread_guard = crate::cache::verif::ThreadGuard::new(crate::cache::verif::Role::Sweeper);
             while let Ok(_instant) = receiver.recv() {
                 let now = clock.now();
                 let shard_index = self.shard_index(&now);
+                #[cfg(feature = "verif")]
+                crate::cache::verif::point(crate::cache::verif::Site::SweepBeforeRetain);
+                #[cfg(feature = "verif")]
+                let mut verif_evicted: Vec<KeyId> = Vec::new();
 
                 self.shards[shard_index].write().retain(|key, expire_after| {
                     let has_not_expired = now.le(expire_after);
                     if !has_not_expired {
                         debug!("Key with id {} has expired", key);
+                        #[cfg(feature = "verif")]
+                        crate::cache::verif::point(crate::cache::verif::Site::SweepBeforeEvict);
+                        #[cfg(feature = "verif")]
+                        verif_evicted.push(*key);
                         (evict_hook)(key);
                     }
                     has_not_expired
                 });
+                #[cfg(feature = "verif")]
+                crate::cache::verif::emit(|| crate::cache::verif::Event::SweepCompleted { now, shard: shard_index, evicted: verif_evicted });
+                #[cfg(feature = "verif")]
+                crate::cache::verif::point(crate::cache::verif::Site::SweepDone);
 
                 if !keep_running.load(Ordering::Acquire) {
                     info!("Shutting down TTLTicker");
@@ -113,6 +127,20 @@ impl TTLTicker {
                 }
             }
         });
+    }
+}
+
+#[cfg(feature = "verif")]
+impl TTLTicker {
+    /// (shard, key id, expiry) of every registered entry.
+    pub(crate) fn verif_entries(&self) -> Vec<(usize, KeyId, ExpireAfter)> {
+        let mut entries = Vec::new();
+        for (shard_index, shard) in self.shards.iter().enumerate() {
+            for (key_id, expiry) in shard.read().iter() {
+                entries.push((shard_index, *key_id, *expiry));
+            }
+        }
+        entries
     }
 }
 
